@@ -1,6 +1,7 @@
 package main
 
 import (
+	"encoding/json"
 	"flag"
 	"fmt"
 	"os"
@@ -197,6 +198,11 @@ func main() {
 		}
 		rep := newReport(p)
 		rep.Explain = explain[p][0]
+		// the claim of record is the one in MANIFEST.json (kept current by gen_manifest.py):
+		// the evidence quotes it so that the two cannot drift apart
+		if claim := manifestClaim(*verif, p); claim != "" {
+			rep.Explain = claim
+		}
 		rep.RuleText = explain[p][1]
 		rep.Assume = assumptions[p]
 		evals := 0
@@ -227,4 +233,29 @@ func main() {
 		}
 	}
 	os.Exit(exit)
+}
+
+// manifestClaim: level_claimed.text of the property in <verif>/MANIFEST.json ("" if unavailable).
+func manifestClaim(verif, prop string) string {
+	b, err := os.ReadFile(filepath.Join(verif, "MANIFEST.json"))
+	if err != nil {
+		return ""
+	}
+	var m struct {
+		Checks []struct {
+			PropertyID   string `json:"property_id"`
+			LevelClaimed struct {
+				Text string `json:"text"`
+			} `json:"level_claimed"`
+		} `json:"checks"`
+	}
+	if json.Unmarshal(b, &m) != nil {
+		return ""
+	}
+	for _, c := range m.Checks {
+		if c.PropertyID == prop {
+			return c.LevelClaimed.Text
+		}
+	}
+	return ""
 }
